@@ -626,6 +626,9 @@ fn run_read_(
     if let Some(m) = max_recv {
         codec.set_max_recv_frame_size(m);
     }
+    // SETTINGS_MAX_HEADER_LIST_SIZE is a different limit (default 16 MiB, over-size lists are delivered empty);
+    // keep it out of the way of the 2^24-1 frame-size cases
+    codec.set_max_recv_header_list_size(1 << 30);
     let waker = noop_waker();
     let mut cx = Context::from_waker(&waker);
     let mut items = vec![];
